@@ -76,6 +76,11 @@ Contrib(tg, r, n) ==
                                   \cup UNION {T(tg, r.named_toks[k].tok.s) : k \in {i \in 1..Len(r.named_toks) : r.named_toks[i].name = n}}
                              ELSE {} : j \in 1..Len(ps)} : m \in ms}
         ELSE {})
+  \* a call of an unknown method may store its arguments in the receiver (append, add, update ...); a value read out of a field or
+  \* an element is a reference that aliases it, so whatever reaches the read value may reach the field / the container
+  \cup (IF r.op = "object_call_stmt" /\ n = r.receiver_object THEN UNION {T(tg, a) : a \in ToSet(r.args)} ELSE {})
+  \cup (IF r.op = "field_read" /\ n \in {r.field, r.receiver_object} THEN T(tg, r.target) ELSE {})
+  \cup (IF r.op = "array_read" /\ n = r.array THEN T(tg, r.target) ELSE {})
   \cup (IF r.op = "field_write" /\ n = r.field THEN T(tg, r.source) ELSE {})
   \cup (IF r.op = "field_read" /\ n = r.target THEN T(tg, r.field) \cup T(tg, r.receiver_object) ELSE {})
   \cup (IF r.op = "array_write" /\ n = r.array THEN T(tg, r.source) ELSE {})
